@@ -42,17 +42,27 @@ def _klass(E, obj):
 
 # ---- the registry classes as class objects (distinct objects, one per class) -----------------------------------
 _CLASS_IDS = {}
+NAMESPACE_ROOTS = {"Registrar", "House", "Store", "Tasker", "Frame", "Log"}
 
 
 def _classobj(E, cv, attr):
     if attr is not None and E.reg.field_type("RegClass", attr) is None:
         return None
-    t = z3.Int("classobj_%s" % cv.name)
-    if cv.name not in _CLASS_IDS:
-        _CLASS_IDS[cv.name] = t
+    # the class object that owns the binding: nearest namespace root along the real MRO (Framer -> Tasker, ...)
+    root = cv.name
+    try:
+        for _rr, cd in E.repo.mro(cv.rel, cv.name):
+            if cd.name in NAMESPACE_ROOTS:
+                root = cd.name
+                break
+    except Exception:
+        pass
+    t = z3.Int("classobj_%s" % root)
+    if root not in _CLASS_IDS:
+        _CLASS_IDS[root] = t
     E.assume(t > 0)
     for n, o in _CLASS_IDS.items():
-        if n != cv.name:
+        if n != root:
             E.assume(t != o)
     return RefV(t, "RegClass", nn=True)
 
@@ -302,9 +312,6 @@ contract(FF, "Framer.assignFrameRegistry", "C47", params=dict(self=Ref("FramerLi
 # run: the only Registrar subclasses that bind `Names` in their class body are the declared namespace roots; every
 # other subclass therefore sees (through the MRO) the binding of its nearest root, so e.g. framers, servers and
 # loggers share the taskers' namespace of the current house, and nothing is registered in a private, unchecked dict.
-NAMESPACE_ROOTS = {"Registrar", "House", "Store", "Tasker", "Frame", "Log"}
-
-
 def _namespace_roots(repo):
     import ast as _ast
     from pyvc.source import all_repo_files, SourceError
@@ -340,3 +347,111 @@ def _namespace_roots(repo):
 
 REG.static_checks.append(("C47", "only the namespace roots %s bind Names in a Registrar class body" % sorted(NAMESPACE_ROOTS),
                           _namespace_roots))
+
+
+# ---- Framer.prune: the one place outside registering.py that removes entries from a namespace ----------------------
+# (seeded change seeded/C47: `Framer.Names.pop(self.name, None)` removes another house's live framer of the same name)
+classdecl("FrameP", fields=dict(auxes=List(Ref("FramerP"))))
+classdecl("FramerP", file=FF, fields=dict(name=STR, done=BOOL, insular=BOOL, tag=STR, pruned=BOOL,
+                                          frameNames=Dict(STR, Ref("FrameP")), auxes=Dict(STR, Ref("FramerP"))))
+REG.classes["FramerP"].source = "Framer"
+REG.classes["FramerP"].hooks[("getattr", "exitAll")] = opaque_method("Framer.exitAll")
+REG.assume_note("Framer.prune: exitAll() (exit actions of the frames) is opaque and assumed not to touch a name registry; "
+                "`[aux for aux in frame.auxes if aux.insular]` is over-approximated (order-preserving sub-list of "
+                "insular elements); dict.values() yields values of present keys")
+
+
+@external("dict.values")
+def _dict_values(E, args, kwargs):
+    from pyvc import builtins_ as B
+    dv = args[0]
+    n = E.fresh("nvals", z3.IntSort())
+    E.assume(n >= 0)
+    keys = E.fresh("valkeys", z3.ArraySort(z3.IntSort(), E.ksort(dv.kt)))
+    dom, vals = E.ddom(dv), E.dvals(dv)
+
+    def at(E2, i):
+        kk = z3.Select(keys, i)
+        E2.assume(z3.Implies(z3.And(i >= 0, i < n), z3.Select(dom, kk)))
+        return unpack(dv.vt, [z3.Select(a, kk) for a in vals], E2.assume)
+    return B.AbstractIter(n, at)
+
+
+def _mark_pruned(E):
+    E.wr_field(E.frame.env["self"], "pruned", True)
+
+
+def _prune_havoc(E):
+    """what a (recursive) prune may change: pruned marks, str-keyed dict contents and aux lists of PRE-STATE objects
+    (objects allocated by the caller and never stored - its local lists - are out of the callee's reach)"""
+    r = z3.Int("r!ph")
+    for key in list(E.heap):
+        if key in (("f", "FramerP.pruned", 0), ("len",), ("el", "ref:FramerP", 0), ("dom", "str")) or \
+                (key[0] == "dv" and key[1] == "str"):
+            old = E.heap[key]
+            new = E.fresh("hvp_" + "_".join(map(str, key)), old.sort())
+            E.assume(z3.ForAll([r], z3.Implies(r < 0, z3.Select(new, r) == z3.Select(old, r))))
+            E.heap[key] = new
+            E.note_write(key, z3.Int("any!ref"))
+    ln = E.heap.get(("len",))
+    if ln is not None:
+        E.assume(z3.ForAll([r], z3.Select(ln, r) >= 0))
+
+
+_prune_havoc.frame = lambda E: []
+
+
+def _ns_framer(E, heap=None):
+    saved = E.heap
+    if heap is not None:
+        E.heap = dict(heap)
+    try:
+        d = E.rd_field(classobj(E, "Tasker"), "Names")
+        return d, E.ddom(d), E.dvals(d)[0]
+    finally:
+        E.heap = saved
+
+
+def _pruned_arr(E, heap=None):
+    h = E.heap if heap is None else heap
+    key = ("f", "FramerP.pruned", 0)
+    return h.get(key, z3.Const("H_f_FramerP.pruned_0", z3.ArraySort(z3.IntSort(), z3.BoolSort())))
+
+
+@specfunc
+def prune_keeps_namespace(E):
+    """relative to function entry: the taskers' namespace is the same dict object; no entry was added or replaced;
+    an entry that disappeared belonged to a framer whose prune() ran (ghost mark `pruned`); marks are never reset"""
+    d0, dom0, v0 = _ns_framer(E, E.heap_old)
+    d1, dom1, v1 = _ns_framer(E)
+    p0, p1 = _pruned_arr(E, E.heap_old), _pruned_arr(E)
+    k = z3.String("k!pk")
+    r = z3.Int("r!pk")
+    kept = z3.ForAll([k], z3.Implies(z3.Select(dom1, k), z3.And(z3.Select(dom0, k), z3.Select(v1, k) == z3.Select(v0, k))))
+    gone = z3.ForAll([k], z3.Implies(z3.And(z3.Select(dom0, k), z3.Not(z3.Select(dom1, k))),
+                                     z3.Select(p1, z3.Select(v0, k))))
+    mono = z3.ForAll([r], z3.Implies(z3.Select(p0, r), z3.Select(p1, r)))
+    return Sym(z3.And(d0.t == d1.t, kept, gone, mono), "bool")
+
+
+PRUNE_INV = ["prune_keeps_namespace()", "self.pruned"]
+@specfunc
+def auxes_not_namespace(E):
+    """no framer's .auxes odict IS the taskers' namespace dict (auxes is created fresh by Framer.__init__)"""
+    d, _, _ = _ns_framer(E)
+    name, ty = E.fkey("FramerP", "auxes")
+    arr = E.harr(("f", name, 0), [z3.IntSort()], z3.IntSort())
+    r = z3.Int("r!an")
+    return Sym(z3.ForAll([r], z3.Select(arr, r) != d.t), "bool")
+
+
+contract(FF, "Framer.prune", "C47", params=dict(self=Ref("FramerP")),
+         assumes=[auxes_not_namespace],
+         modifies=[_prune_havoc], frame=False,
+         ghost={"before": {"if not self.done: console.profuse(\"Force exiting '{0}'\\n\".format(self.name)) self.exitAll()":
+                           _mark_pruned}},
+         loops={0: dict(inv=PRUNE_INV), 1: dict(inv=PRUNE_INV)},
+         ensures_any=PRUNE_INV,
+         raises={"ValueError": ["True"], "KeyError": ["True"]},
+         note="ValueError (list.remove of an aux listed twice) is a safety matter outside C47; the namespace clauses "
+              "hold on every outcome")
